@@ -1,6 +1,7 @@
 #!/bin/bash
-# usage: seedtest.sh <seed dir name e.g. C10_m1> [check args]: apply the seeded change to /repo, run the property's quick check, undo
-S=$1; shift; ID=${S%%_*}
+# usage: [CHECK_ID=<other property>] seedtest.sh <seed dir name e.g. C10_m1> [check args]: apply the seeded change to /repo, run the property's quick check
+# (or, with CHECK_ID, the check of another property that covers the same code), undo
+S=$1; shift; ID=${CHECK_ID:-${S%%_*}}
 exec 9>/tmp/seedtest.lock; flock 9
 cd /repo || exit 9
 git diff --quiet || { echo "/repo has local changes"; exit 9; }
